@@ -36,6 +36,7 @@ type OObject struct {
 	Tags    map[string]string `json:"tags,omitempty"`
 	Class   string            `json:"class,omitempty"` // "" = STANDARD
 	Ck      map[string]string `json:"ck,omitempty"`
+	CkOpt   map[string]string `json:"-"` // model only: must match if reported
 	LastMod int64             `json:"lastmod,omitempty"` // unix nanos; implementation only
 }
 
@@ -87,6 +88,7 @@ func (v *MVersion) object() OObject {
 	body := v.Body()
 	o := OObject{VID: v.VID, Size: int64(len(body)), ETag: v.ETag(), BodySHA: shaHex(body), BodyLen: int64(len(body)),
 		CT: v.CT, HasCT: v.HasCT, Sys: emptyToNil(cloneMap(v.Sys)), User: emptyToNil(cloneMap(v.User)), Tags: emptyToNil(cloneMap(v.Tags)), Class: v.Class}
+	o.Ck, o.CkOpt = v.requiredChecksums()
 	return o
 }
 
@@ -244,6 +246,16 @@ func diffObject(where string, m, i OObject, ckRequired bool, out *[]Diff) {
 	if m.Class != i.Class {
 		add("meta", "storage-class", m.Class, i.Class)
 	}
+	for k, v := range m.Ck {
+		if i.Ck[k] != v {
+			add("checksum", "checksum-"+k, v, i.Ck[k])
+		}
+	}
+	for k, v := range m.CkOpt {
+		if w, ok := i.Ck[k]; ok && w != v {
+			add("checksum", "checksum-"+k, v, w)
+		}
+	}
 }
 
 func short(s string) string {
@@ -382,6 +394,11 @@ func DiffRes(op Op, m, i Res) []Diff {
 	for k, v := range m.Ck {
 		if i.Ck[k] != v {
 			out = append(out, Diff{Class: "checksum", Where: where + ".checksum-" + k, Model: v, Impl: i.Ck[k]})
+		}
+	}
+	for k, v := range m.CkOpt {
+		if w, ok := i.Ck[k]; ok && w != v {
+			out = append(out, Diff{Class: "checksum", Where: where + ".checksum-" + k, Model: v, Impl: w})
 		}
 	}
 	for n := range m.Sub {
